@@ -234,9 +234,9 @@ pub fn gen_machine(p: &mut Prng, cfg: &GenCfg) -> Machine {
     let (app, mpf, abm, mbf) = if cfg.budgets {
         (
             *p.pick(&[0u64, 0, 1, 3, 1000]),
-            *p.pick(&[0.0, 0.0, 0.5, 1.0, 0.1, 1e-9, 0.3333333333333333]),
+            *p.pick(&[0.0, 0.0, 0.5, 1.0, 0.1, 1e-9, 0.3333333333333333, f64::MIN_POSITIVE, f64::EPSILON, 5e-324, -0.0, 0.9999999999999999]),
             *p.pick(&[0u64, 0, 10, 1000, 1_000_000]),
-            *p.pick(&[0.0, 0.0, 0.5, 1.0, 0.01, 0.25]),
+            *p.pick(&[0.0, 0.0, 0.5, 1.0, 0.01, 0.25, f64::MIN_POSITIVE, f64::EPSILON, 5e-324, 1e-300, -0.0, 0.9999999999999999]),
         )
     } else {
         (0, 0.0, 0, 0.0)
